@@ -366,7 +366,7 @@ func init() {
 	core.Register(&core.Check{
 		ID:          "C19",
 		Level:       "model_checking",
-		Rule:        "exhaustive product on one session per case: an all-upper-case name bound to each of 12 values (scalars, nil, small and large arrays and maps, nested large containers, named function, lambda) x 45 mutation paths (=, :=, ++/--, index and dot assignment, element deletion, loop-variable and parameter use, assignment from nested functions and closures called later, eval(), aliases, + merges, passing to mutating functions, slices/rest of it) x 5 scopes (top level, function, nested function, loop body, loop inside function) x 4 new values, plus every ordered pair of attempts. Invariant after every attempt: the name evaluates at top level to a dump equal to the original; a succeeding attempt never makes it print differently inside its scope; no panic; identical records with registers on and off; explicit del() then rebinding works. Non-trivial = every case; distinct by text.",
+		Rule:        "exhaustive product on one session per case: an all-upper-case name bound to each of 12 values (scalars, nil, small and large arrays and maps, nested large containers, named function, lambda) x 45 mutation paths (=, :=, ++/--, index and dot assignment, element deletion, loop-variable and parameter use, assignment from nested functions and closures called later, eval(), aliases, + merges, passing to mutating functions, slices/rest of it) x 5 scopes (top level, function, nested function, loop body, loop inside function) x 4 new values, plus every ordered pair of attempts. Invariant after every attempt: the name evaluates at top level to a dump equal to the original; a succeeding attempt never makes it print differently inside its scope; no panic; identical records with registers on and off; explicit del() then rebinding works. Non-trivial = every case; distinct by text. New values include the same number in the other numeric type; every constant-shaped name of <=4 characters over {A Z 1 _}; histories of <=4 (thorough 5) steps over same-named constants bound globally, function-locally (captured by a closure) and as a captured parameter, against a model of each binding.",
 		Assume:      []string{"observation through the evaluator's own Eval of the constant's name and println inside scopes"},
 		QuickCap:    100 * time.Second,
 		ThoroughCap: 20 * time.Minute,
